@@ -89,6 +89,28 @@ async def run_steps(env: Env, node: NodeSpec, phase: str, steps: list):
         k = st[0]
         if k == "cp":
             await anyio.sleep(0)
+            env.ev("cp_done", node.idx)
+        elif k == "svc":
+            # ("svc", label, checkpoints before started(), stall: never call started())
+            _, label, pre, stall = st
+
+            async def service(*, task_status, label=label, pre=pre, stall=stall):
+                env.ev("svc_begin", label)
+                try:
+                    for _ in range(pre):
+                        await anyio.sleep(0)
+                    if stall:
+                        await anyio.sleep_forever()
+                    task_status.started()
+                    env.ev("svc_started", label)
+                    await anyio.sleep_forever()
+                finally:
+                    env.ev("svc_end", label)
+
+            from asphalt.core import start_service_task
+
+            await start_service_task(service, label)
+            env.ev("svc_registered", node.idx, label)
         elif k == "sleep":
             await anyio.sleep(st[1])
         elif k == "pub":
